@@ -1,4 +1,4 @@
-"""C05: range analysis of plural expressions is sound."""
+"""C06: periodicity analysis of plural expressions is sound."""
 import json
 import os
 
@@ -8,8 +8,8 @@ from harness import intexpr_streams as S
 
 TRUSTED = [
     'Coq 8.16.1 kernel (coqc, vm_compute); coqchk in thorough tier',
-    'axioms: none (Print Assumptions must report "Closed under the global context" for every theorem of Props/C05.v)',
-    'hand-written Gallina model Model/IntExpr.v (codomain, pyeval, lex, pgo) of lib/intexpr.py CodomainEvaluator/Evaluator/lexer/parser',
+    'axioms: none (Print Assumptions must report "Closed under the global context" for every theorem of Props/C06.v)',
+    'hand-written Gallina model Model/IntExpr.v (period, pyeval, lex, pgo) of lib/intexpr.py PeriodEvaluator/Evaluator/lexer/parser',
     'extraction (ExtrOcamlBasic only) + ocaml/driver.ml + zarith for decimal I/O',
     'correspondence harness tools/harness/intexpr_lib.py: agreement on explored inputs is evidence, not proof, that the model is the code',
     'rply (LALR tables, lexer) and CPython int arithmetic are modelled, not verified',
@@ -19,7 +19,7 @@ ASSUME = ['the parser only builds binary BoolOp nodes and single-operator Compar
 
 
 def corpus():
-    p = os.path.join(common.VERIF, 'corpus', 'C05')
+    p = os.path.join(common.VERIF, 'corpus', 'C06')
     out = list(S.REGISTRY_LIKE)
     if os.path.isdir(p):
         for f in sorted(os.listdir(p)):
@@ -33,19 +33,19 @@ def check(ctx):
     maxd = L.maxdigits()
     cases = S.analysis_cases(ctx, corpus())
     cases += [(32, s, 'deep') for d in (50, 600) for s in L.deep_family(d)]
-    req = [(L.line_codomain(b, s, maxd), (b, s)) for (b, s, _) in cases]
-    res = common.compare_parallel('harness.intexpr_lib', 'impl_codomain', req)
+    req = [(L.line_period(b, s, maxd), (b, s)) for (b, s, _) in cases]
+    res = common.compare_parallel('harness.intexpr_lib', 'impl_period', req)
     ctx.evaluations += len(res)
     suspicious = []
     for (line, payload, m, r) in res:
         kind = r.split(' ')[0] + (' none' if r == 'ok none' else '')
-        ctx.count('codomain:' + kind)
+        ctx.count('period:' + kind)
         if L.recursion_finding(ctx, payload[1], r, 'analysis'):
             continue
         if m != r:
-            ctx.disagree('codomain', {'bits': payload[0], 'expr': payload[1]}, m, r)
+            ctx.disagree('period', {'bits': payload[0], 'expr': payload[1]}, m, r)
             suspicious.append(payload)
-        if r.startswith('ok'):
+        if r.startswith('ok') and r != 'ok none':
             ctx.nontriv(payload)
     # the property's own oracle on the implementation: brute force over n < 2^bits
     maxb = 6 if ctx.quick() else 8
@@ -54,18 +54,18 @@ def check(ctx):
     for (b, s) in suspicious:
         for bb in range(1, 11):
             todo.append((bb, s))
-    verdicts = common.pmap('harness.intexpr_lib', 'oracle_codomain', todo)
+    verdicts = common.pmap('harness.intexpr_lib', 'oracle_period', todo)
     ctx.evaluations += sum(1 << b for (b, _) in todo)
     ctx.count('bruteforce_expr_width_pairs', len(todo))
     for (b, s), v in zip(todo, verdicts):
         if v is not None:
             finding = None
-            ctx.fail('range-unsound' if 'raised' not in str(v) else 'range-crash', {'bits': b, 'expr': s}, v, finding)
+            ctx.fail('period-unsound' if 'raised' not in str(v) else 'period-crash', {'bits': b, 'expr': s}, v, finding)
     ctx.samples = [{'bits': b, 'expr': s, 'origin': o} for (b, s, o) in cases[::max(1, len(cases) // 10)]][:10]
     return common.finish(
         ctx, 'proof', build, aud, TRUSTED, ASSUME,
-        checker_cmd='tools/build.sh (coq_makefile + make: coqc on Props/C05.v) then coqc Audit_C05.v (Print Assumptions)',
-        rule='model codomain vs Expression.codomain(bits=b) on: corpus, every expression with <= 1 operator over leaves {n,0,1,2,3,M-1,M} '
+        checker_cmd='tools/build.sh (coq_makefile + make: coqc on Props/C06.v) then coqc Audit_C06.v (Print Assumptions)',
+        rule='model period vs Expression.period(bits=b) on: corpus, every expression with <= 1 operator over leaves {n,0,1,2,3,M-1,M} '
              'for b in 1..4, two-operator expressions (sampled in quick, exhaustive for b<=3 in thorough), seeded random expressions of depth <= 6 '
-             'at b in {1..8,32}; then brute-force L <= f(n) <= R / None => all fail with the real evaluator for every n < 2^b (b <= %d). '
-             'non-trivial = distinct (bits, expression) whose analysis succeeded' % maxb)
+             'at b in {1..8,32}; then brute-force outcome(n) == outcome(n+P) for every n in [O, 2^b - P) with the real evaluator (b <= %d). '
+             'non-trivial = distinct (bits, expression) for which a period was returned' % maxb)
